@@ -19,6 +19,9 @@ class LazyNoNop(symstr.TokFrag):
                 continue
             yield t
 
+    def _items(self):
+        return [t for t in list.__iter__(self) if not bool(t == "[nop]")]
+
 
 class TokStrNoNop(TokStr):
     FRAG = LazyNoNop
